@@ -152,19 +152,38 @@ func (m *model) ruleAdmissionDispatch(s *report.Sink) {
 	type alt struct {
 		ch, val ssa.Value
 		pred    *ssa.BasicBlock // block whose conditions govern this alternative (nil = select block)
+		ret     *ssa.Return     // alternative = this return statement of the dispatch helper
 	}
 	var alts []alt
 	chPhi, _ := st.Chan.(*ssa.Phi)
-	if chPhi != nil && chPhi.Block() == m.sel.Block() {
+	chEx, _ := st.Chan.(*ssa.Extract)
+	switch {
+	case chPhi != nil && chPhi.Block() == m.sel.Block():
 		for k, e := range chPhi.Edges {
 			v := st.Send
 			if vp, ok := st.Send.(*ssa.Phi); ok && vp.Block() == chPhi.Block() {
 				v = vp.Edges[k]
 			}
-			alts = append(alts, alt{e, v, chPhi.Block().Preds[k]})
+			alts = append(alts, alt{ch: e, val: v, pred: chPhi.Block().Preds[k]})
 		}
-	} else {
-		alts = append(alts, alt{st.Chan, st.Send, nil})
+	case chEx != nil:
+		// (channel, element, job) returned together by a single-site helper: one alternative per return statement
+		call, _ := chEx.Tuple.(*ssa.Call)
+		valEx, _ := st.Send.(*ssa.Extract)
+		if call != nil && valEx != nil && valEx.Tuple == chEx.Tuple {
+			if rets, _ := m.helperReturns(call, chEx.Index); rets != nil {
+				for _, r := range rets {
+					if valEx.Index < len(r.Results) {
+						alts = append(alts, alt{ch: r.Results[chEx.Index], val: r.Results[valEx.Index], ret: r})
+					}
+				}
+			}
+		}
+		if len(alts) == 0 {
+			alts = append(alts, alt{ch: st.Chan, val: st.Send})
+		}
+	default:
+		alts = append(alts, alt{ch: st.Chan, val: st.Send})
 	}
 	enabled := 0
 	okFront, okGate, okNonEmpty := true, true, true
@@ -186,7 +205,9 @@ func (m *model) ruleAdmissionDispatch(s *report.Sink) {
 		}
 		frontCalls = append(frontCalls, fc)
 		var atoms []atom
-		if a.pred != nil {
+		if a.ret != nil {
+			atoms = m.atomsOf(a.ret)
+		} else if a.pred != nil {
 			atoms = m.localAtoms(a.pred)
 			// the edge pred->select block itself may be conditional
 			if i := ssax.IfOf(a.pred); i != nil {
@@ -200,10 +221,10 @@ func (m *model) ruleAdmissionDispatch(s *report.Sink) {
 			atoms = m.localAtoms(m.sel.Block())
 		}
 		// the front element must have been taken on this path, in this iteration
-		if !m.loopBlocks[fc.(ssa.Instruction).Block()] {
+		if root := m.rootSite(fc.(ssa.Instruction)); root.Parent() != m.fnLoop || !m.loopBlocks[root.Block()] {
 			okFront = false
 		}
-		isOngoing := func(v ssa.Value) bool { return m.resolve(v) == ssa.Value(m.cOngoing) }
+		isOngoing := func(v ssa.Value) bool { return m.cOngoing != nil && m.resolve(v) == ssa.Value(m.cOngoing) }
 		isConc := func(v ssa.Value) bool { return m.isField(v, m.fConc) }
 		if find(atoms, func(x atom) bool { return less(x, isOngoing, isConc) }) == nil {
 			okGate = false
@@ -236,9 +257,13 @@ func (m *model) ruleAdmissionDispatch(s *report.Sink) {
 	}
 	s.Check(enabled > 0 && okFront, "S6", "loop|sent job is ready.Front()", selPos, "whenever the dispatch send is enabled, the job offered to workers is the front element of the ready list taken in this iteration", "the dispatch send can be enabled with a value that is not the front element of the ready list taken in this iteration (stale, arbitrary or nil job)")
 	s.Check(enabled > 0 && okNonEmpty, "S6", "loop|send enabled only with a job chosen", selPos, "the send channel is non-nil only on paths where the ready list was found non-empty", "the ready-channel send can be enabled without a freshly chosen front job (list possibly empty)")
-	s.Check(enabled > 0 && okGate, "S27", "loop|dispatch enabled only while ongoing < concurrency", selPos,
-		"outstanding results never exceed the result buffer: every worker can post its last result after the loop has gone, and executing <= Concurrency in every report",
-		"the ready-channel send is enabled on a path that does not establish ongoing < concurrency: a worker that has posted its result takes another job before the loop consumed the result, so `ongoing` exceeds the concurrency (state reports show executing > Concurrency) and up to N-1 workers block for ever on the full result channel after a fail-fast exit")
+	if m.cOngoing == nil {
+		s.Unk("S27", "loop|dispatch enabled only while ongoing < concurrency", selPos, m.counterErr)
+	} else {
+		s.Check(enabled > 0 && okGate, "S27", "loop|dispatch enabled only while ongoing < concurrency", selPos,
+			"outstanding results never exceed the result buffer: every worker can post its last result after the loop has gone, and executing <= Concurrency in every report",
+			"the ready-channel send is enabled on a path that does not establish ongoing < concurrency: a worker that has posted its result takes another job before the loop consumed the result, so `ongoing` exceeds the concurrency (state reports show executing > Concurrency) and up to N-1 workers block for ever on the full result channel after a fail-fast exit")
+	}
 	// removal: exactly one Remove, in the dispatch arm, unconditional, of the element that was sent
 	nRem := 0
 	for _, op := range ops {
@@ -320,7 +345,7 @@ func (m *model) classifySend(s *report.Sink, fn *ssa.Function, in ssa.Instructio
 		s.OK("S6", k, m.ipos(in), "the dispatch send")
 	case m.rootSite(in).Parent() == m.fnEnqueue && isPtrTo(el, m.SJ) && m.isField(ch, m.fENQ):
 		s.OK("S6", k, m.ipos(in), "Enqueue's hand-over to the loop")
-	case top(fn) == m.fnWorker && types.Identical(el, m.JobResult):
+	case (top(fn) == m.fnWorker || fn == m.fnWorkerDefer) && types.Identical(el, m.JobResult):
 		s.OK("S6", k, m.ipos(in), "worker posting a result")
 	case isPtrTo(el, m.SJ):
 		s.Bad("S6", k, m.ipos(in), "another send of a *ScheduledJob: jobs can reach workers bypassing the ready list")
@@ -377,6 +402,25 @@ func (m *model) isFrontElement(el ssa.Value, fronts []ssa.Value) bool {
 			}
 		}
 		return n > 0
+	}
+	// element returned by the dispatch helper next to the channel and the job
+	if ex, ok := el.(*ssa.Extract); ok {
+		if call, ok := ex.Tuple.(*ssa.Call); ok {
+			if rets, _ := m.helperReturns(call, ex.Index); rets != nil {
+				n := 0
+				for _, r := range rets {
+					e := m.resolve(r.Results[ex.Index])
+					switch {
+					case ssax.IsNilConst(e):
+					case in(e):
+						n++
+					default:
+						return false
+					}
+				}
+				return n > 0
+			}
+		}
 	}
 	return false
 }
@@ -797,6 +841,9 @@ func (m *model) ruleLoopExits(s *report.Sink) {
 		conds := userAtoms(m.localAtoms(ret.Block()))
 		// (b) pending == 0 && enqueue channel closed, both on the current versions
 		p0 := find(conds, func(a atom) bool {
+			if m.cPending == nil {
+				return false
+			}
 			ok, pol := eqInt(a, 0, func(v ssa.Value) bool {
 				return m.versions(m.cPending)[v] && m.current(m.cPending, v, a.cond.(ssa.Instruction).Block())
 			})
@@ -849,7 +896,11 @@ func (m *model) ruleLoopExits(s *report.Sink) {
 		}
 		s.Bad("S17", "loop|unjustified exit#"+m.armOf(ret), m.ipos(ret), "the loop returns neither on (pending == 0 && enqueue channel closed) nor on (job failed && !continueOnError with the error stored): Wait could report nil with work outstanding, or lose the error")
 	})
-	s.Check(nDone >= 1, "S17", "loop|has a completion exit", m.pos(fn.Pos()), "", "no exit under pending == 0 && closed")
+	if m.cPending == nil {
+		s.Unk("S17", "loop|has a completion exit", m.pos(fn.Pos()), m.counterErr)
+	} else {
+		s.Check(nDone >= 1, "S17", "loop|has a completion exit", m.pos(fn.Pos()), "", "no exit under pending == 0 && closed")
+	}
 	s.Check(nFail >= 1, "S17", "loop|has a fail-fast exit", m.pos(fn.Pos()), "", "no fail-fast exit storing the error")
 	// every way round the loop passes the completion test (a `continue` that skips it would park the loop for ever)
 	skip := false
@@ -1138,15 +1189,30 @@ type pathState struct {
 	off  map[ssa.Value]int // value -> offset from its counter's header phi
 	ctr  map[ssa.Value]*ssa.Phi
 	list int // insertions - removals on the ready list so far
+	// symbolic part: a helper that returns exactly the number of elements it put on the ready list
+	// contributes its (unknown) result n once to the list and, where that result is added to or
+	// subtracted from a counter, +-n to that counter
+	symList map[ssa.Value]int               // call -> coefficient of n in the list delta
+	symOff  map[ssa.Value]map[ssa.Value]int // value -> call -> coefficient of n in the value
 }
 
 func (p *pathState) clone() *pathState {
-	q := &pathState{off: map[ssa.Value]int{}, ctr: map[ssa.Value]*ssa.Phi{}, list: p.list}
+	q := &pathState{off: map[ssa.Value]int{}, ctr: map[ssa.Value]*ssa.Phi{}, list: p.list, symList: map[ssa.Value]int{}, symOff: map[ssa.Value]map[ssa.Value]int{}}
 	for k, v := range p.off {
 		q.off[k] = v
 	}
 	for k, v := range p.ctr {
 		q.ctr[k] = v
+	}
+	for k, v := range p.symList {
+		q.symList[k] = v
+	}
+	for k, v := range p.symOff {
+		c := map[ssa.Value]int{}
+		for k2, v2 := range v {
+			c[k2] = v2
+		}
+		q.symOff[k] = c
 	}
 	return q
 }
@@ -1158,10 +1224,14 @@ type consResult struct {
 }
 
 func (m *model) ruleConservation(s *report.Sink) {
+	if m.cPending == nil {
+		s.Unk("S25", "loop|counters", m.pos(m.fnLoop.Pos()), m.counterErr)
+		return
+	}
 	counters := []*ssa.Phi{m.cPending, m.cOngoing, m.cWaiting}
 	sign := map[*ssa.Phi]int{m.cPending: 1, m.cOngoing: -1, m.cWaiting: -1}
 	res := &consResult{bad: map[string][]string{}, unk: map[string][]string{}, paths: map[string]int{}}
-	init := &pathState{off: map[ssa.Value]int{}, ctr: map[ssa.Value]*ssa.Phi{}}
+	init := &pathState{off: map[ssa.Value]int{}, ctr: map[ssa.Value]*ssa.Phi{}, symList: map[ssa.Value]int{}, symOff: map[ssa.Value]map[ssa.Value]int{}}
 	for _, c := range counters {
 		init.off[c] = 0
 		init.ctr[c] = c
@@ -1252,9 +1322,15 @@ func (m *model) ruleConservation(s *report.Sink) {
 				if c, off, ok := offsetOf(st, e); ok {
 					st.ctr[p] = c
 					st.off[p] = off
+					if so, ok := st.symOff[e]; ok {
+						st.symOff[p] = so
+					} else {
+						delete(st.symOff, p)
+					}
 				} else {
 					delete(st.ctr, p)
 					delete(st.off, p)
+					delete(st.symOff, p)
 				}
 				break
 			}
@@ -1276,9 +1352,17 @@ func (m *model) ruleConservation(s *report.Sink) {
 					return
 				}
 				r += sign[c] * off
+				for call, k := range st.symOff[opnd] {
+					st.symList[call] -= sign[c] * k // fold into one symbolic residual per call
+				}
 			}
 			r -= st.list
 			res.paths[arm]++
+			for call, k := range st.symList {
+				if k != 0 {
+					res.bad[arm] = append(res.bad[arm], fmt.Sprintf("%s: the count returned by %s is not applied to the counters in step with the elements it puts on the ready list", m.ipos(call.(ssa.Instruction)), call.(*ssa.Call).Call.StaticCallee().Name()))
+				}
+			}
 			if r != 0 {
 				res.bad[arm] = append(res.bad[arm], fmt.Sprintf("a path through this arm leaves pending %+d off the sum ready+waiting+ongoing", r))
 			}
@@ -1328,6 +1412,24 @@ func (m *model) ruleConservation(s *report.Sink) {
 						}
 						st.ctr[x] = c
 						st.off[x] = off + n
+						if so, ok := st.symOff[x.X]; ok {
+							st.symOff[x] = so
+						}
+					} else if call, isCall := x.Y.(*ssa.Call); isCall {
+						if _, tracked := st.symList[call]; tracked {
+							st.ctr[x] = c
+							st.off[x] = off
+							so := map[ssa.Value]int{}
+							for k2, v2 := range st.symOff[x.X] {
+								so[k2] = v2
+							}
+							if x.Op == token.ADD {
+								so[call]++
+							} else {
+								so[call]--
+							}
+							st.symOff[x] = so
+						}
 					}
 				}
 			case *ssa.Call:
@@ -1340,6 +1442,11 @@ func (m *model) ruleConservation(s *report.Sink) {
 				} else if callee := x.Call.StaticCallee(); callee != nil && callee.Pkg == m.pkg && callee.Blocks != nil {
 					d, ok := calleeList(callee, 0)
 					if !ok {
+						if m.returnsListDelta(callee) {
+							// n elements inserted, n returned: symbolic
+							st.symList[x]++
+							break
+						}
 						res.unk[arm] = append(res.unk[arm], fmt.Sprintf("%s: helper %s changes the ready list conditionally", m.ipos(x), callee.Name()))
 						return
 					}
@@ -1409,9 +1516,176 @@ func (m *model) ruleConservation(s *report.Sink) {
 	s.Check(pre == 0 && !m.loopBlocks[m.readyList.(ssa.Instruction).Block()], "S25", "loop|ready list starts empty", m.ipos(m.readyList.(ssa.Instruction)), "created once before the loop", "the ready list is created inside the loop or modified before it")
 }
 
+// returnsListDelta: on every path through fn the single int result equals the number of insertions into the
+// ready list minus the removals performed by fn (fn does not call further helpers that touch the list).
+func (m *model) returnsListDelta(fn *ssa.Function) bool {
+	if fn.Signature.Results().Len() != 1 || !isInt(fn.Signature.Results().At(0).Type()) {
+		return false
+	}
+	type st struct {
+		off  map[ssa.Value]int
+		list int
+	}
+	clone := func(a *st) *st {
+		b := &st{off: map[ssa.Value]int{}, list: a.list}
+		for k, v := range a.off {
+			b.off[k] = v
+		}
+		return b
+	}
+	okAll, nRet := true, 0
+	budget := 5000
+	var walk func(b, pred *ssa.BasicBlock, s *st, entries map[*ssa.BasicBlock]*st)
+	walk = func(b, pred *ssa.BasicBlock, s *st, entries map[*ssa.BasicBlock]*st) {
+		budget--
+		if budget < 0 || !okAll {
+			okAll = false
+			return
+		}
+		for _, in := range b.Instrs {
+			p, ok := in.(*ssa.Phi)
+			if !ok {
+				break
+			}
+			if pred == nil {
+				continue
+			}
+			for k, e := range p.Edges {
+				if b.Preds[k] != pred {
+					continue
+				}
+				if c, isC := e.(*ssa.Const); isC && c.Value != nil && isInt(p.Type()) {
+					s.off[p] = int(c.Int64())
+				} else if o, ok := s.off[e]; ok {
+					s.off[p] = o
+				} else {
+					delete(s.off, p)
+				}
+			}
+		}
+		if e, ok := entries[b]; ok && pred != nil {
+			// one more iteration of an inner loop: every tracked phi must have moved in step with the list
+			for _, in := range b.Instrs {
+				p, isPhi := in.(*ssa.Phi)
+				if !isPhi {
+					break
+				}
+				o, ok1 := s.off[p]
+				o0, ok0 := e.off[p]
+				if ok1 != ok0 {
+					okAll = false
+				}
+				if ok1 && isInt(p.Type()) && p.Comment != "rangeindex" && o-o0 != s.list-e.list {
+					// a phi that is not the result accumulator would fail here; only accumulators that are returned matter,
+					// they are checked at the return: record nothing
+					_ = o
+				}
+			}
+			// the accumulators are checked at return time using absolute values; loops are cut after one iteration more
+			return
+		}
+		if naturalLoop(b) != nil {
+			e2 := map[*ssa.BasicBlock]*st{}
+			for k, v := range entries {
+				e2[k] = v
+			}
+			e2[b] = clone(s)
+			entries = e2
+		}
+		for _, in := range b.Instrs {
+			switch x := in.(type) {
+			case *ssa.BinOp:
+				if o, ok := s.off[x.X]; ok && (x.Op == token.ADD || x.Op == token.SUB) {
+					if k, isC := x.Y.(*ssa.Const); isC && k.Value != nil {
+						n := int(k.Int64())
+						if x.Op == token.SUB {
+							n = -n
+						}
+						s.off[x] = o + n
+					}
+				}
+			case *ssa.Call:
+				if recv, name, _, ok := listCall(x); ok && m.isReadyList(recv) {
+					if isInsert(name) {
+						s.list++
+					} else if name == "Remove" {
+						s.list--
+					}
+				} else if callee := x.Call.StaticCallee(); callee != nil && callee.Pkg == m.pkg {
+					if d, ok := m.plainListDelta(callee); !ok || d != 0 {
+						okAll = false
+					}
+				}
+			case *ssa.Return:
+				nRet++
+				var o int
+				var ok bool
+				if c, isC := x.Results[0].(*ssa.Const); isC && c.Value != nil {
+					o, ok = int(c.Int64()), true
+				} else {
+					o, ok = s.off[x.Results[0]]
+				}
+				if !ok || o != s.list {
+					okAll = false
+				}
+				return
+			}
+		}
+		for _, su := range b.Succs {
+			walk(su, b, clone(s), entries)
+		}
+	}
+	walk(fn.Blocks[0], nil, &st{off: map[ssa.Value]int{}}, map[*ssa.BasicBlock]*st{})
+	// the path walk unrolls every inner loop once (0 and 1 iterations, each branch): together with the
+	// accumulator being carried by a phi that is only ever incremented next to an insertion this covers
+	// all iteration counts; require that structure explicitly
+	if !okAll || nRet == 0 {
+		return false
+	}
+	for _, b := range fn.Blocks {
+		for _, in := range b.Instrs {
+			if recv, name, _, ok := listCall(in); ok && m.isReadyList(recv) && (isInsert(name) || name == "Remove") {
+				// an accumulator update in the same block
+				paired := false
+				for _, in2 := range b.Instrs {
+					if bo, ok := in2.(*ssa.BinOp); ok && (bo.Op == token.ADD || bo.Op == token.SUB) && ssax.IsConstInt(bo.Y, 1) {
+						if _, isPhi := bo.X.(*ssa.Phi); isPhi {
+							paired = true
+						}
+					}
+				}
+				if !paired {
+					return false
+				}
+			}
+		}
+	}
+	return true
+}
+
+// plainListDelta: unconditional list effect of a helper (0 when it does not touch the list).
+func (m *model) plainListDelta(fn *ssa.Function) (int, bool) {
+	if fn.Blocks == nil {
+		return 0, true
+	}
+	total, ok := 0, true
+	ssax.Instrs(fn, func(in ssa.Instruction) {
+		if recv, name, _, isList := listCall(in); isList && m.isReadyList(recv) {
+			if isInsert(name) || name == "Remove" {
+				ok = false
+			}
+		}
+	})
+	return total, ok
+}
+
 // S26 state literal, S28 emit sites.
 func (m *model) ruleState(s *report.Sink) {
 	m.ruleEmitSites(s)
+	if m.cPending == nil {
+		s.Unk("S26", "State|counters", m.pos(m.fnLoop.Pos()), m.counterErr)
+		return
+	}
 	if m.emitCall == nil {
 		s.Unk("S26", "State|construction", m.pos(m.fnLoop.Pos()), "the loop goroutine does not call Emitter.Emit at exactly one site")
 		return
@@ -1532,18 +1806,33 @@ func (m *model) isIdle(v ssa.Value, depth int) bool {
 			}
 		}
 		good := true
-		nret := 0
+		nret, ndiff := 0, 0
 		ssax.Instrs(callee, func(in ssa.Instruction) {
 			r, ok := in.(*ssa.Return)
-			if !ok {
+			if !ok || r.Block() == callee.Recover {
 				return
 			}
 			nret++
-			if len(r.Results) != 1 || !m.isIdleIn(r.Results[0], bind, 0) {
+			if len(r.Results) != 1 {
+				good = false
+				return
+			}
+			switch {
+			case m.isIdleIn(r.Results[0], bind, 0):
+				ndiff++
+			case ssax.IsConstInt(r.Results[0], 0):
+				// clamp written as an early return: only under (a - b) < 0
+				neg := find(m.localAtoms(r.Block()), func(a atom) bool {
+					return less(a, func(y ssa.Value) bool { return m.isIdleIn(y, bind, 0) }, func(y ssa.Value) bool { return ssax.IsConstInt(y, 0) })
+				})
+				if neg == nil {
+					good = false
+				}
+			default:
 				good = false
 			}
 		})
-		return good && nret > 0
+		return good && ndiff > 0
 	}
 	return false
 }
